@@ -147,27 +147,42 @@ def _apply_common(piece, blk):
                 k += 1
             arrow = k
             k += 1
-            if s_[k].text != '{':
-                ok = False
-                break
-            body_close = rtok.match_close(s_, k)
             if pats == ['_']:
                 head = 'else ' if not first else ''
             else:
                 cond = ' || '.join(f'{scrut} == {p}' for p in pats)
                 head = ('if ' if first else 'else if ') + cond + ' '
-            edits.append((a0, arrow, head))
-            k = body_close + 1
-            if k < close_i and s_[k].text == ',':
-                edits.append((k, k, ''))
-                k += 1
+            if s_[k].text == '{':
+                body_close = rtok.match_close(s_, k)
+                edits.append((a0, arrow, head))
+                k = body_close + 1
+                if k < close_i and s_[k].text == ',':
+                    edits.append((k, k, ''))
+                    k += 1
+            else:
+                # expression arm `pat => expr,`: wrapped in braces
+                depth, j = 0, k
+                while j < close_i and not (s_[j].text == ',' and depth == 0):
+                    if s_[j].text in rtok.OPEN: depth += 1
+                    elif s_[j].text in rtok.CLOSE: depth -= 1
+                    j += 1
+                edits.append((a0, arrow, head + '{ '))
+                if j < close_i:
+                    edits.append((j, j, ' }'))
+                    k = j + 1
+                else:
+                    edits.append(('after', j - 1, ' }'))
+                    k = j
             first = False
         if not ok:
             piece.counts['hint_skipped'] = piece.counts.get('hint_skipped', 0) + 1
             continue
         piece.replace_tokens(h, open_i, '', 'match_str_desugar')
         for a_, b_, txt in edits:
-            piece.replace_tokens(a_, b_, txt, 'match_str_desugar')
+            if a_ == 'after':
+                piece.insert_after(b_, txt, 'match_str_desugar')
+            else:
+                piece.replace_tokens(a_, b_, txt, 'match_str_desugar')
             piece.counts['match_str_desugar'] -= 1
         piece.replace_tokens(close_i, close_i, '', 'match_str_desugar')
         piece.counts['match_str_desugar'] -= 1
@@ -605,7 +620,19 @@ def _gen_slice(repo, blk, gen):
     else:
         hits, n = outer.find(blk['from'], what='from')
     s0 = hits[0]
-    if blk.get('through_close'):
+    if blk.get('rest_of_fn_after_stmt'):
+        # the slice is everything that follows the statement starting with the anchor, up to the end of the function body:
+        # whatever shape that code takes (if-chains, early returns, a match), it is one expression of the function's return type
+        k = s0
+        depth = 0
+        while not (src.s[k].text == ';' and depth == 0):
+            if src.s[k].text in rtok.OPEN: depth += 1
+            elif src.s[k].text in rtok.CLOSE: depth -= 1
+            k += 1
+            if k > j: raise LostAnchor(f'{a["name"]}: end of the statement not found')
+        s0, s1 = k + 1, j - 1
+        if s0 > s1: raise LostAnchor(f'{a["name"]}: nothing after the statement')
+    elif blk.get('through_close'):
         opener = s0 + n - 1
         s1 = rtok.match_close(src.s, opener)
         if blk.get('inner'):
@@ -639,6 +666,17 @@ def _gen_slice(repo, blk, gen):
             k += 1
             if k > j: raise LostAnchor(f'{a["name"]}: block not found')
         s1 = rtok.match_close(src.s, k)
+        if blk.get('extend_else'):
+            # `if .. { } else if .. { } else { }`: the slice takes the whole chain
+            while s1 + 1 <= j and src.s[s1 + 1].text == 'else':
+                k = s1 + 2
+                depth = 0
+                while not (src.s[k].text == '{' and depth == 0):
+                    if src.s[k].text in rtok.OPEN: depth += 1
+                    elif src.s[k].text in rtok.CLOSE: depth -= 1
+                    k += 1
+                    if k > j: raise LostAnchor(f'{a["name"]}: else block not found')
+                s1 = rtok.match_close(src.s, k)
     elif blk.get('through_stmt') is not None:
         # the slice ends at the `;` closing the statement that starts with the anchor (first after `from`)
         hits2, n2 = outer.find(blk['through_stmt'] or blk['from'], lo=s0, unique=False, what='through_stmt')
@@ -818,7 +856,7 @@ def generate(repo, template_text, variables=None):
                 blk.setdefault('after_all', []).append((frm.strip(), to.strip()))
             elif d in ('strip', 'keep_attrs', 'from', 'through', 'through_stmt', 'from_nth', 'attr'):
                 blk[d] = rest
-            elif d in ('through_close', 'inner', 'make_pub', 'through_block', 'until_enclosing_close'):
+            elif d in ('through_close', 'inner', 'make_pub', 'through_block', 'until_enclosing_close', 'extend_else', 'rest_of_fn_after_stmt'):
                 blk[d] = True
             else:
                 raise TemplateError(f'line {i+1}: unknown directive {d}')
